@@ -512,10 +512,14 @@ func (v *FV) callMods(fr *Frame, cc *ssa.CallCommon, mod map[string]bool, all *b
 	}
 	if cc.IsInvoke() {
 		mod["CALLS"] = true // ghost counter of interface method invocations
-	} else if _, isParam := cc.Value.(*ssa.Parameter); isParam {
+		mod["STAMP"] = true
+		mod["RESNIL"] = true
+	} else if isFuncValueCall(cc) {
 		mod["CALLS"] = true
 		mod["ARGNN"] = true
 		mod["ARGV"] = true
+		mod["STAMP"] = true
+		mod["RESNIL"] = true
 	}
 	if b, ok := cc.Value.(*ssa.Builtin); ok {
 		switch b.Name() {
@@ -946,6 +950,12 @@ func (v *FV) loopHeader(fr *Frame, li *loopInfo, st *State) *State {
 		}
 		if mod["ARGV"] {
 			v.regArray("ARGV", fmt.Sprintf("(Array Int %s)", v.idx()))
+		}
+		if mod["STAMP"] {
+			v.regArray("STAMP", fmt.Sprintf("(Array Int %s)", v.idx()))
+		}
+		if mod["RESNIL"] {
+			v.regArray("RESNIL", "(Array Int Bool)")
 		}
 		if mod["LOCKED"] {
 			v.regArray("LOCKED", "(Array Int Bool)")
